@@ -157,6 +157,60 @@ def planted_check(rec, st):
         rec.outcome("planted")
 
 
+HISTORY_TEXTS = ["Green, Red, Square, (Def/Ext, Circle)", "Def/Vt/a$b, Green", "Triangle, Circle, Square, Green, Def/Ext",
+                 "(Green, (Def/Ext)), Item/Zzqother", "(Def-expand/Ext, (Item/Zzqextdef, Blue)), Item/Zzqother, Def/Ext"]
+HISTORY_OPS = ["expand", "shrink", "validate", "copy", "sort"]
+
+
+def history_check(rec, st, depth):
+    """E2: every sequence of object operations up to depth, then a validation with a context-carrying handler: the offsets
+    of every issue still lie in the text the string was built from and select the fragment the message quotes."""
+    from hed.models.hed_string import HedString
+    from hed.errors.error_reporter import ErrorHandler
+    from hed.errors.error_types import ErrorContext
+    from hed.models.definition_dict import DefinitionDict
+    from hed.validator import HedValidator
+    dd = DefinitionDict(["(Definition/Ext, (Item/Zzqextdef, Blue))", "(Definition/Vt/#, (Label/#, Blue))"], st.schema)
+    validator = HedValidator(st.schema, def_dicts=dd)
+
+    def validate(hs, text, hist):
+        eh = ErrorHandler()
+        eh.push_error_context(ErrorContext.HED_STRING, hs)
+        issues = validator.validate(hs, allow_placeholders=False, error_handler=eh)
+        for i in issues:
+            wellformed(rec, i, "history", text, {"text": text, "history": list(hist)})
+        return sorted(i["code"] for i in issues)
+
+    for text in HISTORY_TEXTS:
+        base = None
+        for d in range(0, depth + 1):
+            for hist in itertools.product(HISTORY_OPS, repeat=d):
+                rec.n("evaluations")
+                rec.n("transitions", d + 1)
+                if d:
+                    rec.n("distinct_nontrivial")
+                try:
+                    hs = HedString(text, st.schema, dd)
+                    for op in hist:
+                        if op == "expand":
+                            hs.expand_defs()
+                        elif op == "shrink":
+                            hs.shrink_defs()
+                        elif op == "validate":
+                            validate(hs, text, hist)
+                        elif op == "copy":
+                            hs = hs.copy()
+                        elif op == "sort":
+                            hs.sort()
+                    codes = validate(hs, text, hist)
+                except Exception as e:
+                    rec.violation("C12:history:raises:" + type(e).__name__, text=text, history=list(hist), error=repr(e)[:200])
+                    continue
+                if base is None:
+                    base = codes
+                rec.outcome("history")
+
+
 def worker_strings(rec, shard, nshards, seed):
     from hed.models.hed_string import HedString
     from hed.errors.error_reporter import ErrorHandler
@@ -165,6 +219,8 @@ def worker_strings(rec, shard, nshards, seed):
     cases = list(dict.fromkeys(string_cases(st)))
     if shard == 0:
         planted_check(rec, st)
+    if shard == 1 % nshards:
+        history_check(rec, st, 3)
     for ci in core.shard_order(len(cases), shard, nshards, seed):
         text, phs = cases[ci]
         for ph in phs:
@@ -329,6 +385,13 @@ def sort_check(ctx):
                 if [d["code"] for d in got] != [d["code"] for d in want]:
                     rec.violation("C12:sort:order-differs-from-stable-reference", input=[(d["code"], refkey(d)) for d in perm],
                                   got=[d["code"] for d in got], expected=[d["code"] for d in want])
+                    return
+                got_r = sort_issues(list(perm), reverse=True)
+                want_r = sorted(perm, key=refkey, reverse=True)     # descending, ties still in input order
+                if [d["code"] for d in got_r] != [d["code"] for d in want_r]:
+                    rec.violation("C12:sort:reverse-order-differs-from-stable-reference",
+                                  input=[(d["code"], refkey(d)) for d in perm], got=[d["code"] for d in got_r],
+                                  expected=[d["code"] for d in want_r])
                     return
                 if sorted(map(id, got)) != sorted(map(id, perm)):
                     rec.violation("C12:sort:issues-lost-or-copied")
